@@ -63,7 +63,18 @@ class Scenario:
         self.B = None
         self.D = None
         self.Q = None
+        self.writers = set()
         self.log = []
+
+
+def reg_echo(writers):
+    async def handler(r, w, origin, info):
+        writers.add(w)
+        try:
+            await echo_handler(r, w, origin, info)
+        finally:
+            writers.discard(w)
+    return handler
 
 
 async def probe(port, timeout=5.0):
@@ -103,6 +114,7 @@ async def main(args):
             combos.append((kind, "kill-restart", "mid-transfer", 0.5, 1))
             combos.append((kind, rng.choice(["term-restart", "stop-kill-restart"]), "idle", 1.0, 2))
             combos.append((kind, "stop-cont", rng.choice(["idle", "during-connect"]), 1.0, 1))
+    combos.append(("direct", "reset-restart", "mid-transfer", 0.5, 1))
     for fault in ("close-restart", "kill-restart"):
         for phase in (("idle", "mid-transfer", "during-connect") if args.thorough else ("idle", "mid-transfer")):
             combos.append(("qx", fault, phase, rng.choice([0.3, 1.0, 3.0]), 2 if phase == "idle" else 1))
@@ -160,7 +172,7 @@ async def main(args):
 
     async def start_upstream(s):
         if s.kind == "direct":
-            s.D = await TcpOrigin(echo_handler, host="127.0.0.1", port=s.dport).start()
+            s.D = await TcpOrigin(reg_echo(s.writers), host="127.0.0.1", port=s.dport).start()
         elif s.kind == "qx":
             await s.Q.start()
         else:
@@ -187,11 +199,20 @@ async def main(args):
         hard = s.fault != "stop-cont"
         if s.kind == "direct":
             # an origin cannot be SIGSTOPped here: emulate kill (abort connections, close listener) or a stall (stop reading)
+            if s.fault == "reset-restart":
+                # the origin host goes away hard: every connection is reset (RST), not closed
+                import socket as _s, struct as _st
+                for w in list(s.writers):
+                    try:
+                        w.get_extra_info("socket").setsockopt(_s.SOL_SOCKET, _s.SO_LINGER, _st.pack("ii", 1, 0))
+                        w.transport.abort()
+                    except Exception:
+                        pass
             for t in list(s.D.tasks):
                 t.cancel()
             await s.D.stop()
             await asyncio.sleep(s.outage)
-            s.D = await TcpOrigin(echo_handler, host="127.0.0.1", port=s.dport).start()
+            s.D = await TcpOrigin(reg_echo(s.writers), host="127.0.0.1", port=s.dport).start()
             return True
         if s.kind == "qx":
             if s.fault == "close-restart":
@@ -308,6 +329,18 @@ async def main(args):
                         rec = next((h for h in hist if int(h["source"].rsplit(":", 1)[1]) == src), None)
                         if rec is not None and rec["state"][-1]["state"] != "ErrorOccured" and s.kind != "direct":
                             out.violation("tunnel broken by an upstream outage is not recorded as an error", {"scenario": s.name, "states": [x["state"] for x in rec["state"]]})
+                        if s.fault == "reset-restart":
+                            # a reset is unambiguous (unlike a FIN, which may be a half-close): the proxy must have ended the tunnel
+                            # on both sides by now and recorded the error, although the client never closed its side
+                            out.case()
+                            out.nontrivial((s.kind, s.fault, "reset-recorded"))
+                            if rec is None:
+                                live = await A.api_json("/live")
+                                still = any(int(h["source"].rsplit(":", 1)[1]) == src for h in live)
+                                out.violation("tunnel whose upstream connection was reset is not ended by the proxy (%s)" % ("still live" if still else "no record"),
+                                              {"scenario": s.name, "seconds_after_the_reset": round(now() - t_fault, 1)})
+                            elif rec["state"][-1]["state"] != "ErrorOccured":
+                                out.violation("tunnel broken by an upstream reset is not recorded as an error", {"scenario": s.name, "states": [x["state"] for x in rec["state"]]})
                     except Exception:
                         pass
             if long_c is not None:
